@@ -243,3 +243,178 @@ func ruleR15c(c *Ctx) {
 	})
 	c.floor("R15c", "rewrites of a template body in Registry.Add", 1, n)
 }
+
+// R15d: template text reaches the parser as it is on disk. In the bundle, the text of a file is the bytes
+// read (string(content)) and the text of a string is the parameter itself: AddTemplateFile hands
+// AddTemplateString the conversion of what ReadFile returned and nothing else, AddTemplateString stores its
+// parameter, and Compile parses the stored field. (Rewriting line ends on the way changes what {literal}
+// blocks emit and every reported position.)
+func ruleR15d(c *Ctx) {
+	p := c.pkg("")
+	af := c.mustFunc("", "Bundle.AddTemplateFile")
+	as := c.mustFunc("", "Bundle.AddTemplateString")
+	if p == nil || af == nil || as == nil {
+		return
+	}
+	info := p.TypesInfo
+	asFn := info.Defs[as.Name]
+	// (1) AddTemplateFile: the text argument is string(<result of ReadFile>)
+	var content types.Object
+	ast.Inspect(af.Body, func(x ast.Node) bool {
+		if st, ok := x.(*ast.AssignStmt); ok && len(st.Rhs) == 1 {
+			if call, ok := st.Rhs[0].(*ast.CallExpr); ok {
+				if cal := calleeFunc(call, info); cal != nil && strings.HasSuffix(cal.Name(), "ReadFile") {
+					if id, ok := st.Lhs[0].(*ast.Ident); ok {
+						content = info.Defs[id]
+					}
+				}
+			}
+		}
+		return true
+	})
+	n := 0
+	ast.Inspect(af.Body, func(x ast.Node) bool {
+		call, ok := x.(*ast.CallExpr)
+		if !ok || types.Object(calleeFunc(call, info)) != asFn || len(call.Args) != 2 {
+			return true
+		}
+		n++
+		good := false
+		if conv, ok := ast.Unparen(call.Args[1]).(*ast.CallExpr); ok && len(conv.Args) == 1 {
+			if tv, ok := info.Types[conv.Fun]; ok && tv.IsType() {
+				if id, ok := ast.Unparen(conv.Args[0]).(*ast.Ident); ok && content != nil && info.Uses[id] == content {
+					good = true
+				}
+			}
+		}
+		c.check(good, "R15d", "soy.Bundle.AddTemplateFile text-as-read", call.Pos(), "the file's text is the bytes read, converted to a string",
+			"the text handed on for a template file is "+exprKey(call.Args[1])+", not simply the bytes read from it: template text (for instance a CR LF inside {literal}) is altered before the parser sees it")
+		return true
+	})
+	c.floor("R15d", "hand-overs of a file's text in AddTemplateFile", 1, n)
+	// (2) AddTemplateString stores its text parameter itself
+	var textParam types.Object
+	i := 0
+	for _, fl := range as.Type.Params.List {
+		for _, nm := range fl.Names {
+			if i == 1 {
+				textParam = info.Defs[nm]
+			}
+			i++
+		}
+	}
+	stored := false
+	ast.Inspect(as.Body, func(x ast.Node) bool {
+		if cl, ok := x.(*ast.CompositeLit); ok {
+			for _, el := range cl.Elts {
+				v := el
+				if kv, ok := el.(*ast.KeyValueExpr); ok {
+					v = kv.Value
+				}
+				if id, ok := ast.Unparen(v).(*ast.Ident); ok && info.Uses[id] == textParam {
+					stored = true
+				}
+			}
+		}
+		return true
+	})
+	c.check(stored, "R15d", "soy.Bundle.AddTemplateString stores-text-as-given", as.Pos(), "the template text is stored as given",
+		"AddTemplateString does not store its text parameter itself")
+}
+
+// R15e: the message pass does not write into template text. The bytes of a raw text or html-tag node are
+// slices of one buffer the parser filled; a function of soymsg (or parsepasses) that stores into an element of
+// a []byte it was handed, or took from a node, rewrites the template in place (lower-casing a tag name for
+// its placeholder name changed what both backends emit). Element stores are allowed only into byte slices
+// created in the same function (make, a conversion, a literal, append to nil).
+func ruleR15e(c *Ctx) {
+	n, nbad := 0, 0
+	for _, rel := range []string{"soymsg", "parsepasses", "template"} {
+		p := c.pkg(rel)
+		if p == nil {
+			continue
+		}
+		info := p.TypesInfo
+		for _, fd := range c.allFuncDecls(rel) {
+			n++
+			fresh := map[types.Object]bool{}
+			note := func(lhs ast.Expr, rhs ast.Expr) {
+				id, ok := lhs.(*ast.Ident)
+				if !ok {
+					return
+				}
+				o := info.Defs[id]
+				if o == nil {
+					o = info.Uses[id]
+				}
+				if o == nil {
+					return
+				}
+				switch r := ast.Unparen(rhs).(type) {
+				case *ast.CallExpr:
+					if fid, ok := r.Fun.(*ast.Ident); ok && (fid.Name == "make" || fid.Name == "new") {
+						fresh[o] = true
+					}
+					if tv, ok := info.Types[r.Fun]; ok && tv.IsType() {
+						if atv, ok := info.Types[r.Args[0]]; ok {
+							if b, ok := atv.Type.Underlying().(*types.Basic); ok && b.Info()&types.IsString != 0 {
+								fresh[o] = true // []byte(string) copies
+							}
+						}
+					}
+				case *ast.CompositeLit:
+					fresh[o] = true
+				}
+			}
+			ast.Inspect(fd.Body, func(x ast.Node) bool {
+				switch s := x.(type) {
+				case *ast.AssignStmt:
+					if len(s.Lhs) == len(s.Rhs) {
+						for i := range s.Lhs {
+							note(s.Lhs[i], s.Rhs[i])
+						}
+					}
+				case *ast.ValueSpec:
+					for i, nm := range s.Names {
+						if i < len(s.Values) {
+							note(nm, s.Values[i])
+						}
+					}
+				}
+				return true
+			})
+			ast.Inspect(fd.Body, func(x ast.Node) bool {
+				as, ok := x.(*ast.AssignStmt)
+				if !ok {
+					return true
+				}
+				for _, l := range as.Lhs {
+					ix, ok := l.(*ast.IndexExpr)
+					if !ok {
+						continue
+					}
+					tv, ok := info.Types[ix.X]
+					if !ok {
+						continue
+					}
+					sl, ok := tv.Type.Underlying().(*types.Slice)
+					if !ok {
+						continue
+					}
+					if b, ok := sl.Elem().Underlying().(*types.Basic); !ok || b.Kind() != types.Uint8 {
+						continue
+					}
+					id := rootIdent(ix.X)
+					if id != nil && fresh[info.Uses[id]] {
+						continue
+					}
+					nbad++
+					c.bad("R15e", fmt.Sprintf("%s writes-into-bytes#%d", c.declKey(rel, fd), nbad), as.Pos(),
+						"a byte of "+exprKey(ix.X)+" is overwritten in place, and the slice was not created in this function: if it is (part of) a node's text, the template itself is rewritten and both backends emit the changed characters")
+				}
+				return true
+			})
+		}
+	}
+	c.floor("R15e", "functions of the compile passes examined for in-place byte writes", 30, n)
+}
